@@ -6,7 +6,9 @@ case = {"kind": "hist", "cls": ..., "evs": [event, ...]} with events
   ["exit", pid] ["reap", pid] ["clock", d] ["deny", pid] / ["allow", pid] (reading /proc/<pid>/stat fails with EACCES / works)
   ["new", pid] ["popen", pid] (psutil.Popen over a stub subprocess.Popen with that pid) ["os_enter", o] ["os_exit", o]
   (o.oneshot() block entered / innermost left) ["asdict", o] (o.as_dict(attrs=["ppid"])) ["isrun", o] ["eq", a, b] ["hasheq", a, b] ["ppid", o] ["ctime", o] ["boot"] ["iter"]
-  ["wait", o] (o.wait(timeout=0); fake processes are not children of the caller) ["iterstart"] (g = process_iter())
+  ["wait", o, vis] (o.wait(timeout=0) through the real _psposix.wait_pid; os.waitpid answers ECHILD -- not a child of
+  the caller --, os.kill(pid, 0) sees the PID iff vis (default true) and it is in the table: vis = false is a foreign procfs)
+  ["waitprocs", o, vis] (psutil.wait_procs([o], timeout=0): is o reported gone?) ["iterstart"] (g = process_iter())
   ["iternext", g] (next(g))
   ["set", o, [method, args...]]   method in signal/suspend/resume/terminate/kill/nice/ionice/rlimit/affinity
 Objects are numbered in order of creation (psutil.Process(pid) and objects first yielded by process_iter()).
@@ -70,6 +72,7 @@ class Shadow:
         self.objs = []      # [pid, start, gone, reused, inc]
         self.gens = []      # [started, done, ls, pm]
         self.denied = set()
+        self.exitc = set()  # objects whose exit code is cached
         self.depth = {}     # object -> depth of open oneshot blocks
         self.cppid = set()  # objects whose ppid() is memoized in the current block
         self.pmap = {}
@@ -149,6 +152,15 @@ class Shadow:
                 self.depth[e[1]] -= 1
                 if self.depth[e[1]] == 0:
                     self.cppid.discard(e[1])
+        elif k in ("wait", "waitprocs"):
+            if e[1] < len(self.objs):
+                x = self.objs[e[1]]
+                vis = e[2] if len(e) > 2 else True
+                none = e[1] in self.exitc or (x[0] > 0 and not (vis and x[0] in self.table))
+                if none:
+                    self.exitc.add(e[1])
+                    if k == "waitprocs":
+                        self._isrun(e[1])
         elif k in ("isrun", "ppid", "asdict"):
             if e[1] < len(self.objs):
                 if k == "ppid" and self.depth.get(e[1], 0) > 0:
@@ -432,14 +444,28 @@ def gen_history(rng, n_events, flavour):
             return
         pid = sh.objs[o][0]
         if rng.random() < 0.3:
-            emit(["wait", o])          # still there: TimeoutExpired
+            emit(["wait", o, True])          # still there: TimeoutExpired
+        if rng.random() < 0.5:
+            # foreign procfs: the caller's namespace does not see the PID although the process is in the table
+            emit([rng.choice(["wait", "waitprocs"]), o, False])
+            feats.add("wait-foreign")
+            emit(["isrun", o])
+            if rng.random() < 0.6:
+                emit(["new", pid])
+                emit(["eq", o, len(sh.objs) - 1])
+                emit(["hasheq", len(sh.objs) - 1, o])
+            if rng.random() < 0.3:
+                emit(["waitprocs", o, rng.random() < 0.5])
+            if rng.random() < 0.4:
+                emit(["isrun", len(sh.objs) - 1])
+                return
         if rng.random() < 0.3:
             emit(["exit", pid])
         emit(["reap", pid])
-        emit(["wait", o])
+        emit([rng.choice(["wait", "wait", "waitprocs"]), o, rng.random() < 0.7])
         feats.add("wait")
         if rng.random() < 0.3:
-            emit(["wait", o])
+            emit(["wait", o, True])
         if rng.random() < 0.85 and spawn_some(pid):
             feats.add("wait-then-reuse")
         emit(rng.choice([["set", o, gen_setter(rng)], ["isrun", o], ["race", o, gen_setter(rng), []]]))
@@ -629,10 +655,10 @@ def gen_history(rng, n_events, flavour):
         feats.add("popen-set-reused")
     if sh.objs and any(x[0] == IMPORT_PID for x in sh.objs) and ("set-reused" in feats or "set-reused-after-gone" in feats):
         feats.add("import-pid")
-    order = ["wait-then-reuse", "iter-overlap", "no-identity", "race-toctou", "race-window", "race-empty-window", "oneshot-set-reused", "popen-set-reused", "set-reused-after-gone", "set-reused", "pid0", "set-gone", "set-zombie", "eq-same-pid-other-proc", "isrun-reused",
+    order = ["wait-foreign", "wait-then-reuse", "iter-overlap", "no-identity", "race-toctou", "race-window", "race-empty-window", "oneshot-set-reused", "popen-set-reused", "set-reused-after-gone", "set-reused", "pid0", "set-gone", "set-zombie", "eq-same-pid-other-proc", "isrun-reused",
              "clock", "eq-same-proc", "isrun-gone", "iter", "set-alive", "isrun-alive", "eq-other-pid"]
     if flavour == "c02":
-        order = ["no-identity", "iter-overlap", "popen-gone-child", "eq-other-pid-same-start", "eq-non-process", "eq-adjacent-ticks", "eq-same-pid-other-proc", "isrun-reused", "clock", "eq-same-proc", "isrun-gone", "set-reused", "iter",
+        order = ["wait-foreign", "no-identity", "iter-overlap", "popen-gone-child", "eq-other-pid-same-start", "eq-non-process", "eq-adjacent-ticks", "eq-same-pid-other-proc", "isrun-reused", "clock", "eq-same-proc", "isrun-gone", "set-reused", "iter",
                  "isrun-alive", "eq-other-pid", "set-gone", "set-alive"]
     cls = next((f for f in order if f in feats), "trivial")
     return {"kind": "hist", "cls": cls, "evs": evs}
@@ -684,7 +710,9 @@ def _ev_term(e):
     if k == "eqother":
         return "EC (EqOther %s)" % G.nat(e[1])
     if k == "wait":
-        return "EC (Wait %s)" % G.nat(e[1])
+        return "EC (Wait %s %s)" % (G.nat(e[1]), G.bo(e[2] if len(e) > 2 else True))
+    if k == "waitprocs":
+        return "EC (WaitProcs %s %s)" % (G.nat(e[1]), G.bo(e[2] if len(e) > 2 else True))
     if k == "iterstart":
         return "EC IterStart"
     if k == "iternext":
@@ -718,11 +746,181 @@ def _ev_term(e):
     raise ValueError(k)
 
 
+# ------------------------------------------------------------------ live cases: the real C extension on a throw-away child
+# case = {"kind": "live", "cls": ..., "ops": [op, ...]} with ops
+#   ["aff", [cpu, ...]]  cpu = ["e", i, k] (the i-th CPU the child may use, plus k) or ["a", n] (the integer n)
+#   ["nice", v]  ["ionice", cls, v|None]  ["rlimit", [soft, hard]]  (RLIMIT_FSIZE)
+_LIVE_ENV = {}
+
+
+def live_env():
+    """Facts about this machine that the model needs: the CPUs a child may use, and what it inherits."""
+    if not _LIVE_ENV:
+        import resource
+        import subprocess
+        import sys
+        out = subprocess.run([sys.executable, "-c", "import os\ntry:\n os.sched_setaffinity(0, range(1024))\nexcept OSError:\n pass\n"
+                              "print(sorted(os.sched_getaffinity(0)))"], stdout=subprocess.PIPE, text=True).stdout
+        getpid = _real_getpid[0] if _real_getpid else os.getpid
+        _LIVE_ENV.update(elig=eval(out), mask0=sorted(os.sched_getaffinity(0)), nice0=os.getpriority(os.PRIO_PROCESS, getpid()),
+                         io0=_ioprio_get(getpid()), rl0=list(resource.getrlimit(resource.RLIMIT_FSIZE)))
+    return _LIVE_ENV
+
+
+def _ioprio_get(pid):
+    import ctypes
+    import platform
+    if platform.machine() != "x86_64":
+        return None
+    v = ctypes.CDLL(None, use_errno=True).syscall(252, 1, pid)      # ioprio_get(IOPRIO_WHO_PROCESS, pid)
+    return [v >> 13, v & 0x1fff] if v >= 0 else None
+
+
+def _cpu(spec, elig):
+    return elig[spec[1] % len(elig)] + spec[2] if spec[0] == "e" else spec[1]
+
+
+def _lop_term(op, elig):
+    k = op[0]
+    if k == "aff":
+        return "(LAff %s)" % G.lst([G.z(_cpu(c, elig)) for c in op[1]])
+    if k == "nice":
+        return "(LNice %s)" % G.z(op[1])
+    if k == "ionice":
+        return "(LIonice %s %s)" % (G.z(op[1]), G.opt(op[2], G.z))
+    if k == "rlimit":
+        return "(LRlimit %s)" % G.lst([G.z(x) for x in op[1]])
+    raise ValueError(k)
+
+
+def gen_live(rng, n):
+    W = 2 ** 32
+    cases = []
+    for _ in range(n):
+        ops, feats = [], set()
+        rl_hard = None        # None = whatever the child inherits; afterwards only ever lowered
+        for _ in range(rng.choice([3, 5, 8])):
+            r = rng.random()
+            if r < 0.55:
+                i = rng.randrange(64)
+                w = rng.random()
+                if w < 0.2:
+                    cpus = [["e", i, 0]]
+                elif w < 0.55:
+                    cpus = [["e", i, rng.choice([W, 3 * W, -W, 2 ** 40, 2 ** 31, 2 ** 64, -2 ** 31, 2 ** 63 - 2 ** 20, 5 * W, 1024, 2048])]]
+                    feats.add("live-aff-wrap")
+                elif w < 0.75:
+                    cpus = [["a", rng.choice([-1, -2, 2 ** 63 - 1, 2 ** 63, -2 ** 63, -2 ** 63 - 1, 2 ** 31, 2 ** 32, 1023, 1024, 5000,
+                                              2 ** 31 - 1, 2 ** 64, 10 ** 30])]]
+                    feats.add("live-aff-boundary")
+                elif w < 0.9:
+                    cpus = [["e", i, 0], ["e", rng.randrange(64), 0]] + ([["e", 0, 0]] if rng.random() < 0.3 else [])
+                elif w < 0.95:
+                    cpus = [["e", i, 0], ["e", i, rng.choice([W, 1024, -W])]]       # kernel keeps the eligible one: no demand
+                else:
+                    cpus = []
+                ops.append(["aff", cpus])
+                feats.add("live-aff")
+            elif r < 0.7:
+                ops.append(["nice", rng.choice([-20, -5, 0, 1, 7, 19, 19, 20, 40, -21, 2 ** 31 - 1, 2 ** 31, -2 ** 31, -2 ** 31 - 1,
+                                                2 ** 32 + 5, 2 ** 32 - 3, 2 ** 63, -2 ** 63 - 1, 2 ** 64 + 1])])
+                feats.add("live-nice")
+            elif r < 0.85:
+                ops.append(["ionice"] + rng.choice([[2, 0], [2, 4], [2, 7], [1, 3], [1, 0], [3, None], [0, None], [3, 0], [2, None],
+                                                     [2, 8], [2, -1], [2, 2 ** 32 + 4], [4, 0], [2 ** 32 + 2, 4], [-1, 0], [3, 1],
+                                                     [0, 5], [2 ** 63, 0], [2, 2 ** 63], [1, 2 ** 32]]))
+                feats.add("live-ionice")
+            else:
+                w = rng.random()
+                if w < 0.5:
+                    cap = rl_hard if rl_hard is not None else 2 ** 62
+                    h = rng.choice([x for x in (2 ** 62, 2 ** 41, 2 ** 32 + 1, 2 ** 32, 2 ** 31, 2 ** 31 - 1, 70000) if x <= cap] or [cap])
+                    ops.append(["rlimit", [rng.choice([h, h // 2, 0, 2 ** 31 if h >= 2 ** 31 else h]), h]])
+                    rl_hard = h
+                else:
+                    ops.append(["rlimit", rng.choice([[2 ** 63, 2 ** 63], [2 ** 64, 5], [5, 2 ** 64], [3, 2], [2 ** 40, 2 ** 20], [1], [1, 2, 3],
+                                                      [2 ** 63 - 1, 2 ** 63]])])
+                feats.add("live-rlimit")
+        order = ["live-aff-wrap", "live-aff-boundary", "live-aff", "live-nice", "live-ionice", "live-rlimit"]
+        cases.append({"kind": "live", "cls": next(f for f in order if f in feats), "ops": ops})
+    return cases
+
+
+def live_judge(case, coq, impl):
+    from pv.core import Verdict
+    if isinstance(impl, dict) and impl.get("t") == "Skip":
+        return Verdict("skip", str(impl.get("a")))
+    if not isinstance(impl, list) or len(impl) != len(case["ops"]):
+        return Verdict("corr", "live run did not complete: %r" % (impl,))
+    for i, op in enumerate(case["ops"]):
+        want = coq["spec"][i]
+        if want is not None and impl[i] != want:
+            return Verdict("violation", "op %d %r on a live process: outcome/kernel state %r, demanded %r (exactly the value asked "
+                           "for, or an exception and nothing changed)" % (i, op, impl[i], want))
+        if coq["model"][i][0] == T("OutOfModel"):
+            return Verdict("ok")          # from here on the model does not know the state
+        if impl[i] != coq["model"][i]:
+            return Verdict("corr", "op %d %r: implementation %r, model %r" % (i, op, impl[i], coq["model"][i]))
+    return Verdict("ok")
+
+
+def live_run(case, env):
+    import resource
+    import subprocess
+
+    import psutil
+    E = live_env()
+    if E["io0"] is None:
+        return T("Skip", "ioprio_get syscall number unknown on this machine")
+    psutil.PROCFS_PATH = "/proc"
+    child = subprocess.Popen(["sleep", "60"])
+    out = []
+    try:
+        p = psutil.Process(child.pid)
+
+        def state():
+            lim = resource.prlimit(child.pid, resource.RLIMIT_FSIZE)
+            return [sorted(os.sched_getaffinity(child.pid)), os.getpriority(os.PRIO_PROCESS, child.pid), _ioprio_get(child.pid),
+                    [int(lim[0]), int(lim[1])]]
+
+        for op in case["ops"]:
+            k = op[0]
+            try:
+                if k == "aff":
+                    r = p.cpu_affinity([_cpu(c, E["elig"]) for c in op[1]])
+                elif k == "nice":
+                    r = p.nice(op[1])
+                elif k == "ionice":
+                    r = p.ionice(op[1], op[2])
+                elif k == "rlimit":
+                    r = p.rlimit(resource.RLIMIT_FSIZE, tuple(op[1]))
+                else:
+                    raise AssertionError(k)
+                res = Val(None if r is None else T("Unexpected", repr(r)))
+            except BaseException as e:  # noqa
+                if isinstance(e, (KeyboardInterrupt, SystemExit, AssertionError)) or type(e).__name__ == "CaseTimeout":
+                    raise
+                res = Exc(exc_name(e))
+            out.append([res, state()])
+    finally:
+        child.kill()
+        child.wait()
+    return out
+
+
 def coq_term(case):
+    if case.get("kind") == "live":
+        E = live_env()
+        io0 = E["io0"] or [0, 0]
+        return "run_live %s %s %s %s %s %s %s %s" % (
+            G.lst([G.z(c) for c in E["elig"]]), G.lst([G.z(c) for c in E["mask0"]]), G.z(E["nice0"]), G.z(io0[0]), G.z(io0[1]),
+            G.z(E["rl0"][0]), G.z(E["rl0"][1]), G.lst([_lop_term(op, E["elig"]) for op in case["ops"]]))
     return "run_hist %s" % G.lst([_ev_term(e) for e in case["evs"]])
 
 
 def coq_struct(case, raw):
+    if case.get("kind") == "live":
+        return {"model": [[s[0], s[1]] for s in raw], "spec": [s[2] for s in raw]}
     wf, steps = raw
     return {"wf": wf, "model": [[s[0], s[1]] for s in steps], "spec": [s[2] for s in steps]}
 
@@ -748,6 +946,8 @@ def _any_cpus(ans):
 def judge_history(case, coq, impl, spec_kinds, what):
     """spec_kinds: event kinds whose demanded answer belongs to the property being checked."""
     from pv.core import Verdict
+    if case.get("kind") == "live":
+        return live_judge(case, coq, impl)
     if not coq["wf"]:
         return Verdict("corr", "generator emitted a history that is not well formed")
     if not isinstance(impl, list) or len(impl) != len(case["evs"]):
@@ -792,6 +992,8 @@ def impl_run(case, coq, env):
     import resource
     if _real_getpid and os.getpid is not _real_getpid[0]:
         os.getpid = _real_getpid[0]        # import is over: from now on the real PID (not in the fake table)
+    if case.get("kind") == "live":
+        return live_run(case, env)
 
     import psutil
     from psutil import _psutil_linux as cext
@@ -829,6 +1031,11 @@ def impl_run(case, coq, env):
             raise ProcessLookupError(errno.ESRCH, "No such process")
 
     def f_kill(pid, sig):
+        if waitmode["on"] and sig == 0:
+            # pid_exists() inside wait_pid(): existence in the CALLER's PID namespace, not a signal
+            if not (waitmode["vis"] and pid in table):
+                raise ProcessLookupError(errno.ESRCH, "No such process")
+            return
         attempt(T("Kill", int(pid), int(sig)), pid)
 
     def f_setprio(pid, value):
@@ -849,17 +1056,16 @@ def impl_run(case, coq, env):
 
     import psutil._psposix as _psposix
 
-    def f_wait_pid(pid, timeout=None, proc_name=None, *a, **kw):
-        # not a child of the caller: wait_pid() polls for existence
-        if pid in table:
-            raise psutil.TimeoutExpired(timeout, pid=pid, name=proc_name)
-        return None
+    waitmode = {"on": False, "vis": True}
+
+    def f_waitpid(pid, flags):
+        raise ChildProcessError(errno.ECHILD, "No child processes")      # no fake process is our child
 
     saved = [(_pcommon, "open_binary", _pcommon.open_binary), (_pl, "open_binary", _pl.open_binary),
-             (_psposix, "wait_pid", _psposix.wait_pid), (os, "kill", os.kill), (cext_posix, "setpriority", cext_posix.setpriority),
+             (os, "waitpid", os.waitpid), (os, "kill", os.kill), (cext_posix, "setpriority", cext_posix.setpriority),
              (cext, "proc_ioprio_set", cext.proc_ioprio_set), (cext, "proc_cpu_affinity_set", cext.proc_cpu_affinity_set),
              (resource, "prlimit", resource.prlimit)]
-    _psposix.wait_pid = f_wait_pid
+    os.waitpid = f_waitpid
     _pcommon.open_binary = _pl.open_binary = f_open_binary
     os.kill, cext_posix.setpriority = f_kill, f_setprio
     cext.proc_ioprio_set, cext.proc_cpu_affinity_set = f_ioprio, f_affinity
@@ -873,6 +1079,12 @@ def impl_run(case, coq, env):
             if bound.setdefault(i, now) != now:
                 return i
         return None
+
+    def wait_procs1(p):
+        gone, alive = psutil.wait_procs([p], timeout=0)
+        if len(gone) + len(alive) != 1 or (gone and gone[0] is not p) or (alive and alive[0] is not p):
+            return T("BadWaitProcs", repr((gone, alive)))
+        return bool(gone)
 
     def it_next(g):
         try:
@@ -1054,8 +1266,15 @@ def impl_run(case, coq, env):
                 flush_pending()
             elif k == "eqother":
                 r = outcome(lambda: eq_other(e[1], e[2]), lambda b: b)
-            elif k == "wait":
-                r = outcome(lambda: objs[e[1]].wait(timeout=0), conv_none)
+            elif k in ("wait", "waitprocs"):
+                waitmode["on"], waitmode["vis"] = True, (e[2] if len(e) > 2 else True)
+                try:
+                    if k == "wait":
+                        r = outcome(lambda: objs[e[1]].wait(timeout=0), conv_none)
+                    else:
+                        r = outcome(lambda: wait_procs1(objs[e[1]]), lambda b: b)
+                finally:
+                    waitmode["on"] = False
 
             elif k == "ppid":
                 r = outcome(objs[e[1]].ppid, int)
